@@ -30,6 +30,8 @@ func runPure(kind string, seed uint64, rep *caseReporter) {
 		numchk.CheckDec(r, rep)
 	case "coins":
 		numchk.CheckCoins(r, rep)
+	case "deccoins":
+		numchk.CheckDecCoins(r, rep)
 	}
 }
 
@@ -39,7 +41,7 @@ func runC18(c *Ctx) {
 		n = 40000000
 	}
 	master := sim.NewRand(c.Seed ^ hashStr("C18"))
-	kinds := []string{"int", "uint", "dec", "dec", "dec", "coins", "coins"}
+	kinds := []string{"int", "uint", "dec", "dec", "dec", "coins", "coins", "deccoins"}
 	per := n / c.Of
 	for i := 0; i < per; i++ {
 		seed := master.U64() ^ uint64(c.Shard)*0x9E3779B97F4A7C15
@@ -68,7 +70,7 @@ func replayC18(c *Ctx, raw json.RawMessage) {
 func init() {
 	register(&PropDef{ID: "C18", Level: "exploration", Workers: workersFor(8, 16), Run: runC18, Replay: replayC18,
 		Rule:   "one case = one operand tuple (boundary-biased: 0, +-1, 10^k, 2^k, 2^255-1, 2^255, 2^256-1, rounding ties at the 18th and at the 36th digit, overflow bound +-1, mixed signs, uniformly random bit lengths) pushed through one Int/Uint/Dec operation or the whole Coins API and compared with math/big; distinct_nontrivial counts distinct 64-bit sub-seeds on a 1/64 sample plus the first 2000 per worker (a lower bound, every case is non-trivial)",
-		Floors: map[string]int64{"c18.dec.Quo": 5000, "c18.dec.directed_36th_digit_cases": 1000, "c18.int.expected_panics": 1000, "c18.coins.cases": 50000, "c18.dec.expected_panics": 100},
+		Floors: map[string]int64{"c18.dec.Quo": 5000, "c18.dec.directed_36th_digit_cases": 1000, "c18.int.expected_panics": 1000, "c18.coins.cases": 50000, "c18.dec.expected_panics": 100, "c18.deccoins.cases": 20000},
 		Assume: []string{"math/big is exact", "Int.Mod is judged as a non-negative residue (Euclidean), Int.Quo as truncation, as their doc comments say"}})
 }
 
